@@ -133,6 +133,14 @@ def polylineIntersectsFeature : LineTable → Bool
   | .area vs => vs.any polylineIntersectsPolygon
   | .other => false
 
+/-- `IntersectsPolyline.Matches` for a query polyline of `nq` vertices. `polyline.Project(f.Point())` indexes
+vertex `nq-2`: with an empty query polyline the point branch panics (`none`) in the code as found; repaired
+(fixes/C05-empty-polyline-query.patch) it answers false. The path and area branches never project. -/
+def intersectsPolylineMatches (fixed : Bool) (nq : Nat) (t : LineTable) : Option Bool :=
+  match nq, t with
+  | 0, .point _ => if fixed then some false else none
+  | _, t => some (polylineIntersectsFeature t)
+
 /-! ## multiPolygonIntersectsFeature -/
 
 inductive MpTable where
@@ -172,9 +180,16 @@ def geoMatches (fixed : Bool) : GeoQuery → Bool
   | .mp t => multiPolygonIntersectsFeature fixed t
   | .empty => false
 
-/-- `i.ID == f.FeatureID() || i.toGeometryQuery(w).Matches(f, w)` -/
+/-- code as found: `i.ID == f.FeatureID() || i.toGeometryQuery(w).Matches(f, w)`; repaired
+(fixes/C04-intersects-feature-without-geometry.patch): `false` when the geometry query is `Empty{}` — a named
+feature without geometry intersects nothing, itself included, which is what `Compile` answers -/
 def intersectsFeatureMatches (fixed : Bool) (sameID : Bool) (q : GeoQuery) : Bool :=
-  sameID || geoMatches fixed q
+  match q with
+  | .empty => if fixed then false else sameID
+  | q => sameID || geoMatches fixed q
+
+/-- `b6.MightIntersect.Matches`: constantly true (the query only selects candidates by covering) -/
+def mightIntersectMatches : Bool := true
 
 /-! ## Exploration oracle: exact point-in-polygon on integer (E7) coordinates -/
 
